@@ -138,13 +138,13 @@ func (p *pipe) Write(b []byte) (n int, err error) {
 		// Block until p is not full.
 		for {
 			if p.closed || p.writeClosed {
-				return 0, io.ErrClosedPipe
+				return n, io.ErrClosedPipe
 			}
 			if !p.full() {
 				break
 			}
 			if p.wtimedout {
-				return 0, errTimeout
+				return n, errTimeout
 			}
 
 			p.wwait.Wait()
